@@ -14,12 +14,18 @@ def cleanStep (st : List String) (seg : String) : List String :=
 /-- `path.Clean` of a rooted path given by its segments -/
 def cleanAbs (segs : List String) : List String := segs.foldl cleanStep []
 
-def segments (s : String) : List String := s.splitOn "/"
+/-- `strings.Split(s, "/")`, on the list of characters (`List.splitOn` has the lemmas; the legacy
+`String.splitOn` has none and does not reduce) -/
+def segments (s : String) : List String := (s.toList.splitOn '/').map String.ofList
 
 def render (segs : List String) : String := "/" ++ "/".intercalate segs
 
 /-- `path.Join("/orbitdb", root, name)` as a string -/
 def joinAddr (root name : String) : String := render (cleanAbs (["orbitdb", root] ++ segments name))
+
+/-- `strings.HasPrefix` on the list of characters (`String.startsWith` does not reduce in the kernel;
+`String.startsWith_string_iff` says they agree) -/
+def hasPrefix (p s : String) : Bool := p.toList.isPrefixOf s.toList
 
 structure Addr where
   root : String
@@ -28,7 +34,7 @@ deriving DecidableEq, Repr
 
 /-- `address.Parse`: strip `/orbitdb/`, first segment must be a CID, the rest is the path -/
 def parse (isCid : String → Bool) (s : String) : Option Addr :=
-  let s' := if s.startsWith "/orbitdb/" then (s.drop "/orbitdb/".length).toString else s
+  let s' := if hasPrefix "/orbitdb/" s then (s.drop "/orbitdb/".length).copy else s
   match segments s' with
   | [] => none
   | r :: rest => if isCid r then some { root := r, path := "/".intercalate rest } else none
